@@ -662,6 +662,8 @@ class Spec:
                 self._init_counters()
             is_scan_last = self.scan_last is not None and i == self.scan_last
             if self.advance > 0:
+                if getattr(self, "nomatch", False):
+                    raise OutOfClass("return-mode no-matches with advance()")
                 self.advance -= 1
                 if is_scan_last or i == n - 1 and self.scan_last is None:
                     break
@@ -696,8 +698,11 @@ class Spec:
                 holds = all(v is not False for v in votes)
             else:
                 holds = any(v is True for v in votes)
+            if getattr(self, "nomatch", False) and self.skip_fired:
+                raise OutOfClass("return-mode no-matches with skip()")
             if holds:
                 self.match_count += 1
+            if holds != getattr(self, "nomatch", False):
                 self.lines.append(rec)
             if self.stop_fired or is_scan_last:
                 stopped = True
@@ -737,7 +742,10 @@ def scan_den(scan):
     return (lambda i: i == n), n
 
 
-def judge(prog, recs, scan, and_mode):
-    """run S; returns the Spec object or raises OutOfClass"""
+def judge(prog, recs, scan, and_mode, nomatch=False):
+    """run S; returns the Spec object or raises OutOfClass. `nomatch`: return-mode: no-matches — the lines returned are the
+    scanned lines on which the components do not hold; the counters count the same things as ever"""
     den, last = scan_den(scan)
-    return Spec(prog, recs, den, last, and_mode).run()
+    sp = Spec(prog, recs, den, last, and_mode)
+    sp.nomatch = nomatch
+    return sp.run()
